@@ -21,7 +21,7 @@ import (
 func init() {
 	h.Register(&h.Prop{
 		ID:   "C05",
-		Rule: "adv: n in 3..5, one Byzantine member; fault catalogue (bad share, equivocating commitments with and without cross-wired session ids, T in {0,1,n+1,2^32-1} bound/unbound, self-consistent deals of threshold 0,1,2,n+1,2n (exactly T commitments, fitting share and session id), wrong index, other-length commitments, missing share/value, raw session id, junk / missing / redirected / previous-session deal, slot pre-emption under an honest or out-of-range index; response with bad / missing / foreign signature, foreign or previous session id, complaint about an honest dealer or about the recipient's own deal, relabelled or previous-session genuine response, missing response, out-of-range responder) injected at every position of the honest delivery sequence (all in thorough and for n=3,4 in quick; sampled for n=5 in quick), pairs of faults in thorough; non-trivial = every case (each has at least one adversarial message); distinct = distinct case line",
+		Rule: "adv: n in 3..5, one Byzantine member; fault catalogue (bad share, equivocating commitments with and without cross-wired session ids, T in {0,1,n+1,2^32-1} bound/unbound, self-consistent deals of threshold 0,1,2,n+1,2n (exactly T commitments, fitting share and session id), wrong index (small, out of range, equal to the own index modulo 2^32), other-length commitments, missing share/value, raw session id, junk / missing / redirected / previous-session deal, slot pre-emption under an honest or out-of-range index; response with bad / missing / foreign signature, foreign or previous session id, complaint about an honest dealer or about the recipient's own deal, relabelled or previous-session genuine response, missing response, out-of-range responder) injected at every position of the honest delivery sequence (all in thorough and for n=3,4 in quick; sampled for n=5 in quick), pairs of faults in thorough; non-trivial = every case (each has at least one adversarial message); distinct = distinct case line",
 		Gen:  gen,
 		Exec: exec,
 	})
@@ -95,6 +95,7 @@ func dealFaults() []fault {
 				return nil, false, false
 			}
 			v := strings.ReplaceAll(strings.ReplaceAll(variant, "N1", fmt.Sprint(n+1)), "NN", fmt.Sprint(2*n))
+			v = wideIndex(v, i)
 			return []string{fmt.Sprintf("D.%d.%d.%d.%s", b, b, i, v)}, true, true
 		}}
 	}
@@ -108,7 +109,7 @@ func dealFaults() []fault {
 	}
 	fs := []fault{
 		own("bad1"), own("good2"), own("xw2_3"), own("T0p1"), own("T1p1"), own("TN1p1"), own("T4294967295p1"),
-		own("Tx0p1"), own("Tx1p1"), own("TxN1p1"), own("Tc0p6"), own("Tc1p6"), own("Tc2p6"), own("TcN1p6"), own("TcNNp6"), own("idx0p1"), own("idx1p1"), own("idx-1p1"), own("clen1p1"),
+		own("Tx0p1"), own("Tx1p1"), own("TxN1p1"), own("Tc0p6"), own("Tc1p6"), own("Tc2p6"), own("TcN1p6"), own("TcNNp6"), own("idx0p1"), own("idx1p1"), own("idx-1p1"), own("idxP32p1"), own("idxM32p1"), own("idxP33p1"), own("idxP62p1"), own("clen1p1"),
 		own("clenN1p1"), own("nilshare"), own("nilv"), own("sidraw"), own("junk"), own("nil"),
 		{name: "d-prev", deal: func(n, b, j, i int) ([]string, bool, bool) {
 			if j != b {
@@ -185,6 +186,15 @@ func respFaults() []fault {
 		}),
 		pre("r-replay-prev", func(n, b, k, i, js int) string { return fmt.Sprintf("PR.%d.%d.%d", k, js, js) }),
 	}
+}
+
+// wideIndex replaces the tokens P32 / M32 / P33 / P62 by the recipient's index plus / minus that power of
+// two: share indices that agree with the recipient's own index only in their low 32 bits
+func wideIndex(v string, i int) string {
+	for tok, off := range map[string]int64{"P32": 1 << 32, "M32": -(1 << 32), "P33": 1 << 33, "P62": 1 << 62} {
+		v = strings.ReplaceAll(v, "idx"+tok, fmt.Sprintf("idx%d", int64(i)+off))
+	}
+	return v
 }
 
 // canonical honest run: every start, key, deal and Responses delivery, grouped by kind
@@ -311,6 +321,7 @@ func gen(tier string, rng *h.Rng, emit func(string)) {
 					j, i := h.Atoi(p[0]), h.Atoi(p[1])
 					if j == b && i != b {
 						v := strings.ReplaceAll(strings.ReplaceAll(variant(i), "N1", fmt.Sprint(n+1)), "NN", fmt.Sprint(2*n))
+						v = wideIndex(v, i)
 						injs = append(injs, injection{q, []string{fmt.Sprintf("D.%d.%d.%d.%s", b, b, i, v)}, true, i})
 					}
 				}
@@ -335,9 +346,40 @@ func gen(tier string, rng *h.Rng, emit func(string)) {
 				return "good21"
 			})
 			multi(func(i int) string { return "bad7" })
+			multi(func(i int) string { // one consistent polynomial for everybody, but one member's share is off it
+				if i == hon[0] {
+					return "bad7"
+				}
+				return "good7"
+			})
+			multi(func(i int) string {
+				if i == hon[len(hon)-1] {
+					return "T1p7"
+				}
+				return "good7"
+			})
+			multi(func(i int) string { return "idxP32p7" }) // everybody's index is right only modulo 2^32
+			multi(func(i int) string { return "idxM32p7" })
 			multi(func(i int) string { return "Tc1p9" })  // threshold 1, self-consistent, to everybody: the share IS the secret
 			multi(func(i int) string { return "TcN1p9" }) // threshold n+1, self-consistent, to everybody
 			multi(func(i int) string { return "clenN1p8" })
+			// equivocation backed by forged approvals: every honest member gets its own polynomial from b, and
+			// the other honest members' approvals for exactly that polynomial, unsigned / signed by b, arrive first
+			for _, signer := range []string{"junk", "none", fmt.Sprint(b)} {
+				var injs []injection
+				for q, e := range ev {
+					p := strings.Split(e[1:], ".")
+					if e[0] == 'd' && h.Atoi(p[0]) == b && h.Atoi(p[1]) != b {
+						i := h.Atoi(p[1])
+						injs = append(injs, injection{q, []string{fmt.Sprintf("D.%d.%d.%d.good%d", b, b, i, 30+i)}, true, i})
+					}
+					if e[0] == 'r' && h.Atoi(p[0]) != b && h.Atoi(p[1]) != b {
+						k, i := h.Atoi(p[0]), h.Atoi(p[1])
+						injs = append(injs, injection{q, []string{fmt.Sprintf("R.%d.%d.p%d_%d.a.%s", b, k, b, 30+i, signer)}, false, i})
+					}
+				}
+				emit(build(seed(), n, b, injs))
+			}
 			// previous-session replay of b's whole dealing together with the honest members' old approvals
 			{
 				var injs []injection
